@@ -951,6 +951,8 @@ int __wrap_timerfd_settime(int fd, int flags, const struct itimerspec *nv, struc
 			continue;
 		uint64_t cnt;
 		ns_t d = nv->it_value.tv_sec * NSEC + nv->it_value.tv_nsec;
+		if (d != 0 && !(flags & TFD_TIMER_ABSTIME))
+			d += vnow;		/* a relative setting counts from now */
 		__real_read(fd, &cnt, 8);	/* drain */
 		TF[i].fired = 0;
 		if (d == 0) {
